@@ -176,6 +176,7 @@ func Run(context *hookstate.Context, args []string, uid uint32) (stdout, stderr 
 		}
 	}
 
+	verifInstrumentParser(parser)
 	_, err = parser.ParseArgs(args)
 	return stdoutBuffer.Bytes(), stderrBuffer.Bytes(), err
 }
